@@ -76,6 +76,7 @@ def random_idents(rng, nk):
 
 class C12(PropBase):
     pid = "C12"
+    translators = []
     coq_dirs = ["C12"]
     bins = ["c12"]
     rule = ("case = (tasks: lists of (module key, API used), per key: suspensions, supplier answer, module identity "
